@@ -8,6 +8,8 @@ from harness import clientlib as cl
 from harness import histgen
 from harness.callreg import invocations
 
+WIDE = 200000        # thorough tier: histories of the wide correspondence stream (widegen.py), judged by the model and the generic rule
+WIDE_QUICK = 2000
 PROP = 'C15'
 EXHAUSTIVE = False
 RULE = ('grammar histories of <= 14 (quick) / <= 40 (thorough) operations over every modelled entry point with stale frames '
